@@ -1,0 +1,78 @@
+//go:build verif && go1.7
+// +build verif,go1.7
+
+// Contracts for the logger package (build tag verif; never compiled into the library).
+// Specification source: the statement of C18.
+
+package logger
+
+import "context"
+
+// ghost: number of lines handed to a *log.Logger so far (engine primitive)
+func ghost_emitted() int     { panic("ghost") }
+func ghost_old_emitted() int { panic("ghost") }
+
+// the connection-id counter is shared by all goroutines: every access must be atomic
+//@ shared gCid guarded_by atomic C18.cid.atomic
+
+// a new context carries the incremented counter: with atomic increments no two contexts share an id
+//@ requires WithContext
+func req_WithContext(ctx context.Context) bool { return ctx != nil }
+
+//@ requires AliasContext
+func req_AliasContext(parent context.Context) bool { return parent != nil }
+
+//@ ensures WithContext C18.cid.fresh
+func ens_WithContext(ret0 context.Context) bool {
+	cid, ok := ret0.Value(cidKey).(int)
+	return ret0 != nil && ok && cid == ghost_lastcid()
+}
+
+// ghost: the value returned by the most recent atomic increment of the counter (engine primitive)
+func ghost_lastcid() int { panic("ghost") }
+
+// an aliased context carries exactly its source's id
+//@ ensures AliasContext C18.cid.alias
+func ens_AliasContext(source context.Context, ret0 context.Context) bool {
+	if source == nil {
+		return true
+	}
+	want, has := source.Value(cidKey).(int)
+	if !has {
+		return true
+	}
+	got, ok := ret0.Value(cidKey).(int)
+	return ok && got == want
+}
+
+// an application object exposing its own connection id is only asked for it
+//@ iface cidContext.Cid assigns nothing
+
+// each logging call hands exactly one line to the underlying logger, on every path
+//@ assigns (*loggerPlus).doPrintln ghost.emitted
+//@ requires (*loggerPlus).doPrintln
+func req_doPrintln(v *loggerPlus) bool { return v.logger != nil }
+
+//@ ensures (*loggerPlus).doPrintln C18.emit.once
+func ens_doPrintln() bool { return ghost_emitted() == ghost_old_emitted()+1 }
+
+//@ assigns (*loggerPlus).doPrintf ghost.emitted
+//@ requires (*loggerPlus).doPrintf
+func req_doPrintf(v *loggerPlus) bool { return v.logger != nil }
+
+//@ ensures (*loggerPlus).doPrintf C18.emit.once
+func ens_doPrintf() bool { return ghost_emitted() == ghost_old_emitted()+1 }
+
+//@ assigns (*loggerPlus).Println ghost.emitted
+//@ requires (*loggerPlus).Println
+func req_Println(v *loggerPlus) bool { return v.logger != nil }
+
+//@ ensures (*loggerPlus).Println C18.emit.once
+func ens_Println() bool { return ghost_emitted() == ghost_old_emitted()+1 }
+
+//@ assigns (*loggerPlus).Printf ghost.emitted
+//@ requires (*loggerPlus).Printf
+func req_Printf(v *loggerPlus) bool { return v.logger != nil }
+
+//@ ensures (*loggerPlus).Printf C18.emit.once
+func ens_Printf() bool { return ghost_emitted() == ghost_old_emitted()+1 }
